@@ -35,6 +35,30 @@ fn const_str_array(f: &syn::File, name: &str) -> Option<Vec<String>> {
     None
 }
 
+/// The table is found by name, or — if a refactoring renamed it — as the only constant of the
+/// file that is an array of string literals (the tables this translator reads are the only such
+/// constants in their files); two candidates are not guessed between.
+fn str_table(f: &syn::File, name: &str) -> Option<Vec<String>> {
+    if let Some(v) = const_str_array(f, name) {
+        return Some(v);
+    }
+    let mut found = vec![];
+    for it in &f.items {
+        if let syn::Item::Const(c) = it {
+            if let Some(v) = const_str_array(f, &c.ident.to_string()) {
+                if !v.is_empty() {
+                    found.push(v);
+                }
+            }
+        }
+    }
+    if found.len() == 1 {
+        found.pop()
+    } else {
+        None
+    }
+}
+
 fn const_str(f: &syn::File, name: &str) -> Option<String> {
     for it in &f.items {
         if let syn::Item::Const(c) = it {
@@ -46,6 +70,28 @@ fn const_str(f: &syn::File, name: &str) -> Option<String> {
         }
     }
     None
+}
+
+/// A string constant by name or, if renamed, the only string constant of the file that `keep` admits.
+fn str_const(f: &syn::File, name: &str, keep: &dyn Fn(&str) -> bool) -> Option<String> {
+    if let Some(v) = const_str(f, name) {
+        return Some(v);
+    }
+    let mut found = vec![];
+    for it in &f.items {
+        if let syn::Item::Const(c) = it {
+            if let Some(v) = const_str(f, &c.ident.to_string()) {
+                if keep(&v) {
+                    found.push(v);
+                }
+            }
+        }
+    }
+    if found.len() == 1 {
+        found.pop()
+    } else {
+        None
+    }
 }
 
 /// scan a token stream (recursively) for `type A = B ;`
@@ -118,14 +164,14 @@ pub fn run(repo: &Path, outdir: &Path) {
 
     // ---- Keywords.v
     let shared = parse(&repo.join("graphql_client_codegen/src/codegen/shared.rs"));
-    let kws = const_str_array(&shared, "RUST_KEYWORDS").expect("RUST_KEYWORDS not found");
+    let kws = str_table(&shared, "RUST_KEYWORDS").expect("keyword table (RUST_KEYWORDS) not found in codegen/shared.rs");
     let schema_rs = parse(&repo.join("graphql_client_codegen/src/schema.rs"));
-    let scalars = const_str_array(&schema_rs, "DEFAULT_SCALARS").expect("DEFAULT_SCALARS not found");
+    let scalars = str_table(&schema_rs, "DEFAULT_SCALARS").expect("built-in scalar table (DEFAULT_SCALARS) not found in schema.rs");
     let codegen = parse(&repo.join("graphql_client_codegen/src/codegen.rs"));
     let mut ms = MacroScan { aliases: vec![] };
     syn::visit::Visit::visit_file(&mut ms, &codegen);
     let constants = parse(&repo.join("graphql_client_codegen/src/constants.rs"));
-    let typename = const_str(&constants, "TYPENAME_FIELD").unwrap_or_default();
+    let typename = str_const(&constants, "TYPENAME_FIELD", &|v| !v.is_empty() && !v.contains(char::is_whitespace)).unwrap_or_default();
     let mut k = String::from(header);
     k.push_str(&format!("Definition rust_keywords : list string :=\n  {}.\n\n", coq::strs(&kws)));
     k.push_str(&format!("Definition default_scalars : list string := {}.\n\n", coq::strs(&scalars)));
@@ -148,7 +194,7 @@ pub fn run(repo: &Path, outdir: &Path) {
 
     // ---- CliFacts.v
     let gen = parse(&repo.join("graphql_client_cli/src/generate.rs"));
-    let warn = const_str(&gen, "WARNING_SUPPRESSION").unwrap_or_default();
+    let warn = str_const(&gen, "WARNING_SUPPRESSION", &|v| v.starts_with("#!")).unwrap_or_default();
     let iq = parse(&repo.join("graphql_client_cli/src/introspection_queries.rs"));
     let mut docs: Vec<(String, String, Vec<String>)> = vec![];
     for it in &iq.items {
